@@ -53,7 +53,7 @@ def lists_for(tier):
 
 
 def nrandom(tier):
-    return 10000 if tier == "quick" else 40000
+    return 10000 if tier == "quick" else 200000
 
 
 def cases(tier):
